@@ -118,6 +118,33 @@ pub trait RemoteSyncHandler {
         }
     }
 
+    /// Add the external files of a merge outcome that are
+    /// not on disc to the downloads in the transfers queue.
+    #[cfg(feature = "files")]
+    #[doc(hidden)]
+    async fn queue_file_downloads(
+        &self,
+        paths: &sos_core::Paths,
+        outcome: &mut MergeOutcome,
+    ) -> Result<(), Self::Error> {
+        for file in outcome.external_files.drain(..) {
+            let file_path = paths.into_file_path(&file);
+            if !vfs::try_exists(file_path).await? {
+                tracing::debug!(
+                    file = ?file,
+                    "add file download to transfers",
+                );
+
+                if self.file_transfer_queue().receiver_count() > 0 {
+                    let _ = self.file_transfer_queue().send(vec![
+                        FileOperation(file, TransferOperation::Download),
+                    ]);
+                }
+            }
+        }
+        Ok(())
+    }
+
     /// Sync the account.
     async fn sync_account(
         &self,
@@ -157,31 +184,10 @@ pub trait RemoteSyncHandler {
                 // Compute which external files need to be downloaded
                 // and add to the transfers queue
                 #[cfg(feature = "files")]
-                if !outcome.external_files.is_empty() {
+                {
                     use sos_account::Account;
                     let paths = account.paths();
-                    // let mut writer = self.transfers.write().await;
-
-                    for file in outcome.external_files.drain(..) {
-                        let file_path = paths.into_file_path(&file);
-                        if !vfs::try_exists(file_path).await? {
-                            tracing::debug!(
-                                file = ?file,
-                                "add file download to transfers",
-                            );
-
-                            if self.file_transfer_queue().receiver_count() > 0
-                            {
-                                let _ =
-                                    self.file_transfer_queue().send(vec![
-                                        FileOperation(
-                                            file,
-                                            TransferOperation::Download,
-                                        ),
-                                    ]);
-                            }
-                        }
-                    }
+                    self.queue_file_downloads(&paths, &mut outcome).await?;
                 }
 
                 // self.compare(&mut *account, remote_changes).await?;
@@ -229,6 +235,14 @@ pub trait RemoteSyncHandler {
                         account.merge_folder(&id, diff, &mut outcome).await?;
                     }
                 }
+                // Files merged above must be downloaded too
+                #[cfg(feature = "files")]
+                {
+                    use sos_account::Account;
+                    let paths = account.paths();
+                    self.queue_file_downloads(&paths, &mut outcome).await?;
+                }
+
                 return Err(ConflictError::Soft {
                     conflict: maybe_conflict,
                     local: packet.status,
